@@ -402,7 +402,9 @@ static void sendLargeTlvResponse(lltd_iface_state *st,
     }
     uint16_t maxPayload = 0;
     if (mtu > sizeof(lltd_demultiplex_header_t) + sizeof(qry_large_tlv_resp_t)) {
-        maxPayload = (uint16_t)(mtu - sizeof(lltd_demultiplex_header_t) - sizeof(qry_large_tlv_resp_t));
+        size_t room = mtu - sizeof(lltd_demultiplex_header_t) - sizeof(qry_large_tlv_resp_t);
+        /* The length word carries the byte count in its low 14 bits (bit 15 is the "more" flag, bit 14 is reserved). */
+        maxPayload = (uint16_t)(room > 0x3FFF ? 0x3FFF : room);
     }
 
     /*
